@@ -73,8 +73,14 @@ THEOREMS = [
     "Ural.Props.C06.bracket_safe",
     "Ural.Props.C06.fingerprinted_host_safe",
     "Ural.Props.C06.fp_printed_whole",
+    # total on urls the parser refuses (Props/C06Total.lean, Model/FingerprintUrlExcept.lean: FX-C07-FPTOTAL)
+    "Ural.Props.C06.fingerprintUrlExcept_eq",
+    "Ural.Props.C06.fingerprint_unparseable_string",
+    "Ural.Props.C06.fingerprint_never_raises_partial",
+    "Ural.Props.C06.fingerprint_never_raises_class",
+    "Ural.Props.C06.old_code_raised",
 ]
-EXTRA_IMPORTS = ["UralModel.Props.C06Whole", "UralModel.Props.C06Fp", "UralModel.Props.C06Shape"]
+EXTRA_IMPORTS = ["UralModel.Props.C06Whole", "UralModel.Props.C06Fp", "UralModel.Props.C06Shape", "UralModel.Props.C06Total"]
 TABLE_OBLIGATIONS = [
     "Ural.Props.C06.langQueryKeys_has",
     "Ural.Props.C06.lang_keys_in_no_combo",
@@ -95,8 +101,10 @@ RULE = (
     "x random T. Both u and T(u) go through the Lean model three ways (second pass with the real parser's accessor / walk answers "
     "shipped; with the hand models pyNetlocAcc / pyWalkHost plugged in; the two hand models alone on the real intermediates) and are "
     "compared with fingerprint_url(unsplit=False) and fingerprint_url(). Oracle, on the implementation only: fingerprint(T(u)) == "
-    "fingerprint(u) (tuple and string) and the shape clause on both. Readings (each demands less): base URLs = URLs the parser "
-    "accepts (fingerprint_url raises on the others; not flagged); a language label is judged on the host normalize_url leaves, T "
+    "fingerprint(u) (tuple and string) and the shape clause on both. An url the parser refuses (bad port, unbalanced bracket, NFKC-refused netloc, "
+    "five characters) is a base url like any other: fingerprint_url must not raise and returns one string under both `unsplit` (the lower-cased "
+    "url, as normalize_url returns its argument: FX-C07-FPTOTAL), letter case still ignored; the transformations that name a component and "
+    "the shape clause are demanded of urls that have components. Readings (each demands less): a language label is judged on the host normalize_url leaves, T "
     "applies where the rest of the host is normalized as without the label and does not itself start with a language label (one "
     "label is stripped); host-keyed redirect rules (ampproject / marfeel / youtube) belong to infer_redirection's notion of which "
     "URL is meant (port / suffix T apply where they do not fire); items are not inserted into redirect carriers nor in front of an "
@@ -139,6 +147,13 @@ ASSUMPTIONS = [
     "HostSafe: the host normalize_url leaves has none of '@', '[', ']' (CPython's hostname never has; puny is arbitrary so it is stated)",
 ]
 UNPROVED = (
+    "TOTALITY (Props/C06Total.lean, the model with every raise site an Except value: Model/FingerprintUrlExcept.lean): fingerprint_unparseable_string - "
+    "every string the modelled parser refuses comes back lower-cased and otherwise unchanged, .ok under both `unsplit` (FULL: every string, decoder, "
+    "platform rewriting, trie); fingerprint_never_raises_partial - .ok of the documented shape for every string GIVEN SecondPassOk (the two CPython reads "
+    "of the second pass, .port and safe_urlsplit(hostname), do not raise on what normalize_url assembled); fingerprint_never_raises_class discharges it "
+    "on the grammar class (StemClass, plain host under strip_suffix, PunyClean decoder); FullFingerprintNeverRaises (no hypothesis) is NOT proved - the "
+    "idna decoder is an arbitrary function in the model; no failing input known (the oracle flags every exception); old_code_raised: the unpacking of "
+    "before the fix raises in the same model on 'http://a.com:99999/' and 'a:b:c'. "
     "WHICH THEOREM CARRIES WHICH CLAUSE. 'Ignores everything normalize_url ignores': fp_factor / fp_of_norm_eq / fp_of_normParts_eq only "
     "unfold the definition (hypothesis = equality of the very normalize_url call: lemmas); the clause is carried by Props/C06Fp.lean: for every "
     "transformation T of C04's family, fingerprintUrlString(T u) = fingerprintUrlString(u) (tuple and string, both strip_suffix, any "
@@ -248,6 +263,9 @@ def _c(u, T, ss=False, pa=False):
 
 
 CORPUS = [
+    # FX-C07-FPTOTAL: fingerprint_url raised on every url the parser refuses (bad port, unbalanced bracket, NFKC-refused
+    # netloc, five characters, very long labels): no exception, the same string under both `unsplit`, case still ignored
+] + [_c(u, ["id"]) for u in nc.REFUSED_URLS] + [_c(u, ["case", "upper", 0]) for u in nc.REFUSED_URLS[:12]] + [
     # D25 / 7b49e59: '/%41' -> '/A' but '/A' -> '/a'
     _c("http://a.com/A", ["norm", "escape", 1]), _c("http://a.com/%41", ["case", "lower", 0]), _c("http://a.com/%41", ["norm", "unescape", 3]),
     _c("http://a.com/x?K=%41", ["norm", "unescape", 3]), _c("http://a.com/x#%41b", ["norm", "unescape", 3]), _c("http://a.com/a", ["norm", "escape", 5]),
@@ -597,8 +615,23 @@ def oracle(case):
     T, ss, pa = case["T"], case["ss"], case["pa"]
     try:
         tu, su = F(u, ss, pa)
-    except Exception:  # noqa
-        # reading: "all base URLs" = the URLs the parser accepts (fingerprint_url raises on the others)
+    except Exception as e:  # noqa
+        # "all base URLs": an exception is no fingerprint.  An url the parser refuses comes back as a
+        # string, as from normalize_url (FX-C07-FPTOTAL: it used to be unpacked - ValueError / AttributeError)
+        return "fingerprint_url(%r, strip_suffix=%r, platform_aware=%r) raises %s: %s" % (u, ss, pa, type(e).__name__, e)
+    if isinstance(tu, str):
+        # the parser refuses u: there are no components to compare (reading: the family T and the shape
+        # clause speak of urls that have components); demanded: no exception, the same string under both
+        # `unsplit`, and the letter case of the whole url still ignored
+        if su != tu:
+            return "fingerprint_url(%r, unsplit=False) == %r but fingerprint_url(%r) == %r" % (u, tu, u, su)
+        if T[0] == "case" and v is not None and v != u and v.lower() == u.lower():
+            try:
+                tv, sv = F(v, ss, pa)
+            except Exception as e:  # noqa
+                return "fingerprint_url(%r) raises %s although fingerprint_url(%r) == %r (T = %r)" % (v, type(e).__name__, u, su, T)
+            if isinstance(tv, str) and (tv, sv) != (tu, su):
+                return "fingerprint_url(%r) == %r but for the case variant %r it is %r" % (u, su, v, sv)
         return None
     f = shape(u, tu, su)
     if f:
@@ -609,6 +642,8 @@ def oracle(case):
         tv, sv = F(v, ss, pa)
     except Exception as e:  # noqa
         return "fingerprint_url(%r) raises %s although fingerprint_url(%r) == %r (T = %r)" % (v, type(e).__name__, u, su, T)
+    if isinstance(tv, str):
+        return "fingerprint_url(%r) == %r has components but T(u) = %r (T = %r) is refused by the parser and comes back as it is: %r" % (u, su, v, T, sv)
     f = shape(v, tv, sv)
     if f:
         return f
@@ -798,6 +833,14 @@ def classify(case):
     elif k == "swap":
         labs.append("swap:%d->%d labels" % (T[1].count(".") + 1, T[2].count(".") + 1))
     labs.append("ss=%d,pa=%d" % (case["ss"], case["pa"]))
+    try:
+        lib.ural()
+        from ural import normalize_url
+
+        if isinstance(normalize_url(case["u"].lower(), unsplit=False, platform_aware=case["pa"]), str):
+            labs.append("base:refused-by-the-parser (comes back lower-cased)")
+    except Exception:  # noqa
+        labs.append("base:normalize_url raises")
     labs.append(nw.label(case["u"], {"platform_aware": case["pa"]}, lower=True))
     if case["pa"]:
         labs.append(ppa.label_pa(case["u"], {"platform_aware": True}, lower=True))
